@@ -116,6 +116,7 @@ def run(tier):
         foreign.append(r.choice([s + f, f + s, s[:i] + f + s[i:]]))
     import checks.c15 as c15
     corp = [s for s in c15.corpus(300 if tier == "quick" else 5000, r) if "{" not in s]
+    corp = corp + [x for x in G.grammar_sentences(r, 60 if tier == "quick" else 600) if "{" not in x]
     all_inputs = texts + foreign + corp
     outs = C.run_impl_parallel("trees", all_inputs)
     stats = {"generated_ok": 0, "reader_ok": 0, "foreign_rejected": 0, "foreign_accepted_derivable": 0, "corpus_accepted": 0}
